@@ -200,6 +200,10 @@ func specC06() *PropSpec {
 			pipeObl("VerifC06Thin4", "both", "any 4-vertex ring in a thin window (vertices sharing a coarse pixel but not a fine one)", "n=4, window of 2x1 pixels, sub-pixel positions {1/4,3/4}, ids {0,1}", "ran"),
 			pipeObl("VerifC06Thin5", "thorough", "any 5-vertex ring in a thin window", "n=5, window of 2x1 pixels, sub-pixel positions {1/4,3/4}, ids {0,1}", "ran"),
 			pipeObl("VerifC06Zigzag8Row", "thorough", "every 8-vertex sequence on the centres of a row of four pixels (zig-zags of every period, repeated runs): no panic, with and without keep-points-and-lines"+timeBoxed, "n=8, 4x1 px window, pixel centres, id {0}", "ran"),
+			{Harness: "VerifC06KmpChain", Pkg: "snap", Mode: "math", Tiers: "both", Internal: true, Covers: []string{"chain"},
+				Desc: "O-2 (chain level): kmpDeduplicate run directly on every sequence of 3..12 point names from an alphabet of 5 with no two equal neighbours (cyclically), which is every routed chain of that size: no panic, no index out of range, budget respected; a counterexample is replayed through SnapPolygon on a polygon whose vertices are pixel centres in convex position and is reported only if it panics there", Bounds: "chain length 3..12, 5 distinct points, names symbolic"},
+			{Harness: "VerifC06KmpChainLong", Pkg: "snap", Mode: "math", Tiers: "thorough", Internal: true, Covers: []string{"chain"},
+				Desc: "same for chains of up to 16 points" + timeBoxed, Bounds: "chain length 3..16, 5 distinct points, names symbolic"},
 			pipeObl("VerifC06Zigzag6Square", "both", "every 6-vertex sequence on the centres of a 2x2 block (zig-zags, spikes, repeated vertices): no panic, with and without keep-points-and-lines", "n=6, 2x2 px window, pixel centres, id {0}", "ran"),
 			pipeObl("VerifC06Zigzag7Square", "thorough", "every 7-vertex sequence on the centres of a 2x2 block"+timeBoxed, "n=7, 2x2 px window, pixel centres, id {0}", "ran"),
 			pipeObl("VerifC06Ring5Centre", "thorough", "any 5-vertex ring on pixel centres", "n=5, 3x3 px window, pixel centres, ids {0,1}", "ran"),
